@@ -10,6 +10,7 @@ Oracle: RECV trace and observations equal the reference model line by line.
 from __future__ import annotations
 
 import json
+import re
 import os
 import shutil
 
@@ -115,6 +116,7 @@ declarations:
   - decl: ~Cls()
   - decl: int id() const
   - decl: int add(int x)
+  - decl: const int *slot()
   - decl: static int twice(int x)
   - decl: void rename(const std::string &name)
   - decl: const std::string &name() const
@@ -206,6 +208,7 @@ public:
     ~Cls();
     int id() const;
     int add(int x);
+    const int *slot();
     static int twice(int x);
     void rename(const std::string &name);
     const std::string &name() const;
@@ -253,6 +256,7 @@ Cls::Cls(const Cls &o) : m_id(o.m_id), m_name(o.m_name) { vt_txt("RECV Cls::copy
 Cls::~Cls() { vt_txt("RECV Cls::~Cls this="); vt_i(m_id); vt_txt("\n"); }
 int Cls::id() const { return m_id; }
 int Cls::add(int x) { vt_txt("RECV Cls::add this="); vt_i(m_id); vt_txt(" x="); vt_i(x); vt_txt("\n"); return m_id + x; }
+const int *Cls::slot() { return &m_id; }
 int Cls::twice(int x) { vt_txt("RECV Cls::twice x="); vt_i(x); vt_txt("\n"); return 2 * x; }
 void Cls::rename(const std::string &name) { vt_txt("RECV Cls::rename this="); vt_i(m_id); vt_txt(" name="); vt_s(name.data(), (long) name.size()); vt_txt("\n"); m_name = name; }
 const std::string &Cls::name() const { return m_name; }
@@ -333,7 +337,7 @@ def scenario_case(args):
     T = P + cs("Cls")
     if case:
         naming = args[1]
-    d = {"T": T, "P": P, "ctor": NC("ctor", ""), "dtor": NC("dtor", ""), "id": NC("id", ""), "add": NC("add", ""), "twice": NC("twice", ""),
+    d = {"T": T, "P": P, "ctor": NC("ctor", ""), "dtor": NC("dtor", ""), "id": NC("id", ""), "add": NC("add", ""), "slot": NC("slot", ""), "twice": NC("twice", ""),
          "rename": NC("rename", ""), "name": NC("name", ""), "whichc": NC("which", "_const"), "whichm": NC("which", "_mutable"), "takes": N("takes", ""), "byval": N("byVal", ""), "TA": P + cs("Abc"), "newabc": N("newAbc", ""), "abcid": NA("id", ""), "abcctor": NA("ctor", ""),
          "p1i": N("put", "_one_int"), "p1d": N("put", "_one_double"), "p2i": N("put", "_two_int"), "p2d": N("put", "_two_double"), "find": N("findCls", ""), "new": N("newCls", ""), "ref": N("refCls", ""), "cref": N("crefCls", ""),
          "val": N("valCls", ""), "next": N("nextColor", ""), "level": N("levelValue", ""), "over0": N("over", "_0"), "over1": N("over", "_1"), "pick0": N("pick", ""), "pick1": N("pick", "_both"), "dflt0": N("dflt", "_0"),
@@ -347,6 +351,7 @@ int main(void) {
   printf("OBS ids"); obs_i(%(id)s(&a)); obs_i(%(id)s(&b)); printf("\n");
   printf("OBS add"); obs_i(%(add)s(&a, 3)); obs_i(%(add)s(&b, 4)); obs_i(%(add)s(&a, -1)); printf("\n");
   printf("OBS twice"); obs_i(%(twice)s(21)); printf("\n");
+  printf("OBS slot"); obs_i(*%(slot)s(&a)); obs_i(*%(slot)s(&b)); printf("\n");
   %(rename)s(&b, "bee"); %(rename)s(&a, "");
   printf("OBS names"); obs_z(%(name)s(&a)); obs_z(%(name)s(&b)); printf("\n");
   printf("OBS which"); obs_i(%(whichc)s(&a)); obs_i(%(whichm)s(&b)); obs_i(%(whichc)s(&b)); printf("\n");
@@ -376,7 +381,19 @@ int main(void) {
 }
 """ % d
     open(os.path.join(out, "driver.c"), "w").write(drv)
-    exp_obs = ["OBS ids 5 9", "OBS add 8 13 4", "OBS twice 42", "OBS names 0:[] 3:[bee]", "OBS which 1 2 1", "OBS byval 7 0", "OBS find 100 101", "OBS ref 3:[zed] 3:[zed] 100", "OBS new 7 8", "OBS val 8", "OBS abc 3 4", "OBS put 11 12 21 22",
+    # the object parameter of a wrapped method is const exactly when the method is (the const after the parameter list), whatever
+    # the result type's own const says
+    proto_errs = []
+    htext = "\n".join(open(os.path.join(out, h)).read() for h in sorted(os.listdir(out)) if h.startswith("wrap") and h.endswith(".h"))
+    htext = re.sub(r"\s+", " ", htext)
+    for key, is_const_method in (("id", True), ("name", True), ("whichc", True), ("add", False), ("slot", False), ("rename", False), ("whichm", False)):
+        m = re.search(r"\b%s\(\s*(const\s+)?%s\s*\*\s*self\b" % (re.escape(d[key]), re.escape(T)), htext)
+        if not m:
+            proto_errs.append(("prototype", "scenario", "[naming %s] no prototype of %s with an object parameter in the wrapper headers" % (naming, d[key])))
+        elif bool(m.group(1)) != is_const_method:
+            proto_errs.append(("prototype", "scenario", "[naming %s] %s: the object parameter is %s, the C++ method is %s" % (
+                naming, d[key], "const" if m.group(1) else "not const", "const" if is_const_method else "not const")))
+    exp_obs = ["OBS ids 5 9", "OBS add 8 13 4", "OBS twice 42", "OBS slot 5 9", "OBS names 0:[] 3:[bee]", "OBS which 1 2 1", "OBS byval 7 0", "OBS find 100 101", "OBS ref 3:[zed] 3:[zed] 100", "OBS new 7 8", "OBS val 8", "OBS abc 3 4", "OBS put 11 12 21 22",
                "OBS color 3 4 0", "OBS level 110 100 101", "OBS dflt 32 34", "OBS tmpl 42 " + A.rnd(A.NATIVE["double"], 2.5),
                "OBS weigh %s %s" % (A.rnd(A.NATIVE["double"], 7.5), A.rnd(A.NATIVE["double"], 2e9)), "OBS ns 2 3"]
     D = A.NATIVE["double"]
@@ -399,7 +416,7 @@ int main(void) {
                 "RECV weigh<int,double> count=3 scale=" + A.rnd(D, 2.5), "RECV weigh<long,float> count=4000000000 scale=" + A.rnd(A.NATIVE["float"], 0.5),
                 "RECV order a=1 b=%s c=5:[three] d=1" % A.rnd(D, 2.5), "RECV order a=-1 b=%s c=0:[] d=0" % A.rnd(D, -2.5),
                 "RECV ns::nsf a=1", "RECV ns::inner::innerf a=1", "RECV Cls::~Cls this=5", "RECV Cls::~Cls this=9"]
-    errs = []
+    errs = list(locals().get("proto_errs", []))
     try:
         objs = build.compile_c_family(out, sorted(f for f in os.listdir(out) if f.endswith((".c", ".cpp"))), "cxx")
         build.link(out, objs, "drv", fortran=False, cxx=True)
